@@ -278,7 +278,7 @@ Fixpoint positions (ws : list str) (toks : list stok) (line col : N) : list (N *
   end.
 
 (* ------------------------------------------------------------------ stage 2: two-character operators *)
-Inductive stok2 := TName (w : str) | TOp (c : N) | TOp2 (a b : N).
+Inductive stok2 := TName (w : str) | TOp (c : N) | TOp2 (a b : N) | TOp3 (a b c : N).
 
 (* the two-character operators of combineOperators:
    == != <= >= += -= *= /= %= |= ^=  || && :: ->  shifts  ++ --   (shift-assign, and-assign, ellipsis: not in this theorem) *)
@@ -288,12 +288,18 @@ Definition S2 : list (N * N) :=
    (60, 60); (62, 62); (43, 43); (45, 45)].               (* shifts and ++ --: with the context conditions of ctx_ok *)
 Definition op2_ok (a b : N) : bool := existsb (fun p => (fst p =? a) && (snd p =? b)) S2.
 
-Definition stok2_str (t : stok2) : str := match t with TName w => w | TOp c => [c] | TOp2 a b => [a; b] end.
+(* three-character operators: shift-assign (both) and the ellipsis *)
+Definition S3 : list (N * N * N) := [(60, 60, 61); (62, 62, 61); (46, 46, 46)].
+Definition op3_ok (a b c : N) : bool := existsb (fun p => (fst (fst p) =? a) && (snd (fst p) =? b) && (snd p =? c)) S3.
+
+Definition stok2_str (t : stok2) : str :=
+  match t with TName w => w | TOp c => [c] | TOp2 a b => [a; b] | TOp3 a b c => [a; b; c] end.
 Definition stok2_ok (t : stok2) : bool :=
   match t with
   | TName w => match w with [] => false | _ => forallb is_name_char w end
   | TOp c => op_ok c && negb (c =? 46)
   | TOp2 a b => op2_ok a b
+  | TOp3 a b c => op3_ok a b c
   end.
 
 (* a separator is needed between two names and between two operators (they could combine) *)
@@ -315,7 +321,7 @@ Fixpoint sep2_ok (ws : list str) (toks : list stok2) : bool :=
 (* 1e + 5 is assembled into one token whatever separates the parts: keep that out *)
 Definition exp_end (w : str) : bool := is_number w && one_of (last_char w) [69; 101; 80; 112].
 Definition starts_pm (t : stok2) : bool :=
-  match t with TOp c => one_of c [43; 45] | TOp2 a _ => one_of a [43; 45] | TName _ => false end.
+  match t with TOp c => one_of c [43; 45] | TOp2 a _ => one_of a [43; 45] | TOp3 a _ _ => one_of a [43; 45] | TName _ => false end.
 Fixpoint no_exp (toks : list stok2) : bool :=
   match toks with
   | TName w :: ((b :: _) as r) => negb (exp_end w && starts_pm b) && no_exp r
@@ -341,18 +347,23 @@ Fixpoint positions2 (ws : list str) (toks : list stok2) (line col : N) : list (N
 (* context conditions of combineOperators for shifts and ++ --:
    a shift directly followed (whatever separates them) by a lone = is read as shift-assign;
    ++ / -- is not built next to a number token (1 ++ 2 stays + +) *)
-Definition head_op (t : stok2) : N := match t with TName _ => 0 | TOp c => c | TOp2 a _ => a end.
+Definition head_op (t : stok2) : N := match t with TName _ => 0 | TOp c => c | TOp2 a _ => a | TOp3 a _ _ => a end.
 Definition is_num_tok (t : stok2) : bool := match t with TName w => is_number w | _ => false end.
 Definition is_shift (t : stok2) : bool :=
   match t with TOp2 a b => ((a =? 60) && (b =? 60)) || ((a =? 62) && (b =? 62)) | _ => false end.
 Definition is_incdec (t : stok2) : bool :=
   match t with TOp2 a b => ((a =? 43) && (b =? 43)) || ((a =? 45) && (b =? 45)) | _ => false end.
+(* shift-assign is only built when a further token follows that is not a lone = ; the ellipsis not after a number *)
+Definition is_shassign (t : stok2) : bool := match t with TOp3 _ _ c => c =? 61 | _ => false end.
+Definition is_ellipsis (t : stok2) : bool := match t with TOp3 _ _ c => c =? 46 | _ => false end.
 Fixpoint ctx_ok (prevnum : bool) (toks : list stok2) : bool :=
   match toks with
   | [] => true
   | t :: r =>
       (negb (is_shift t) || match r with b :: _ => negb (head_op b =? 61) | [] => true end) &&
-      (negb (is_incdec t) || (negb prevnum && match r with b :: _ => negb (is_num_tok b) | [] => true end)) &&
+      ((negb (is_incdec t) || (negb prevnum && match r with b :: _ => negb (is_num_tok b) | [] => true end)) &&
+       (negb (is_shassign t) || match r with b :: _ => negb (head_op b =? 61) | [] => false end) &&
+       (negb (is_ellipsis t) || negb prevnum)) &&
       ctx_ok (is_num_tok t) r
   end.
 
